@@ -288,7 +288,7 @@ def main(tier):
     built = core.build_repo()
     core.build_shim()
     ck.built = built
-    n = 300 if tier == "quick" else 10000
+    n = 1200 if tier == "quick" else 12000
     rnd = core.rng_for("c02main", ck.seed, tier)
     jobs = [(built, ck.seed, i, rnd.randrange(6, 15)) for i in range(n)]
     for res in frame.pmap(work, jobs, chunksize=2):
